@@ -263,7 +263,7 @@ add('C03', 'proof', 'Lean 4 theorems: for every size, T, step errors and measure
     '(Props/C03/TParity.lean: always two bits, non-zero iff success = False; each stage parity = number of time-wrapping fused '
     'pairs mod 2, independent of order and orientation of the mates; a single time step gives the all-zero vector and never '
     'trips the assert; decode_ftp never raises) and tied through the real app.run_once_ftp on every rotated-toric FTP case '
-    '— 32 theorems. Edge weights (Props/C03/Weights.lean, 26 theorems about Model/SmwpmWeight.lean): the step counts of '
+    '— 32 theorems. Edge weights (Props/C03/Weights.lean, 29 theorems about Model/SmwpmWeight.lean): the step counts of '
     '_distance (periodic time distance <= T/2, box rule, both lattice axes periodic in the toric code), which argument '
     'classes make a step weight undefined, _cluster_distance (attained minimum, symmetric, zero between virtual nodes); for '
     'every pair of nodes that passes the _add_edge filters _distance is defined (graph construction never raises for given '
